@@ -69,7 +69,7 @@ def run(ctx):
                 calls = [x for x in src if x[0] == 'call']
                 params = [x for x in src if x[0] == 'param']
                 consts = [x for x in src if x[0] == 'const']
-                if consts and not calls and not params and all(c[1] is None or str(c[1]).endswith('None') for c in consts):
+                if consts and not calls and not params and all(c[1] is None for c in consts):
                     continue        # Option::None
                 n += 1
                 ctx.touch(f)
